@@ -203,6 +203,26 @@ def lookup_compositions(E, crate, path, depth=0):
                 yap = o[1]
             elif o[0] == "cast" and o[2][0] == "place":
                 yap = o[2][1]
+            if x is not None and x.root[0] == "arg" and (yap is None or yap.root[0] != "arg"):
+                # the looked-up id is an item of an adaptor chain (`for (dst, &id) in
+                # out.iter_mut().zip(&other.left)`): the mapper tables the chain is built over
+                work_, seen_, found_ = [t["args"][1]], 0, []
+                while work_ and seen_ < 80:
+                    seen_ += 1
+                    w_ = work_.pop()
+                    ap_ = E.ap_operand(fa, w_)
+                    if ap_ is not None and ap_.root[0] == "arg" and ap_.proj and str(ap_.proj[0]) in ("left", "right"):
+                        found_.append(ap_)
+                        continue
+                    o_ = fa.origin(w_)
+                    if o_[0] == "call":
+                        work_.extend(o_[2]["args"])
+                    elif o_[0] == "place" and o_[1].root[0] == "call":
+                        work_.extend(fa.term(o_[1].root[1])["args"])
+                for ap_ in found_:
+                    out.append((side, x.root[1], ap_.root[1], str(ap_.proj[0])))
+                if found_:
+                    continue
             if x is None or x.root[0] != "arg" or yap is None:
                 continue
             yap2 = E.ap_place(fa, op_place(t["args"][1])) if op_place(t["args"][1]) else yap
@@ -604,11 +624,26 @@ def maprewrite(ctx, E, crate):
             for s in fa.blocks[some_t]["stmts"]:
                 if "rv" in s and s["rv"]["k"] == "use" and not s["lhs"]["p"]:
                     pl = op_place(s["rv"]["op"])
+                    # the item itself, or a member of a zipped item `(l, r)`
                     if pl and pl["l"] == nt["dest"]["l"] and pl["p"] and \
                             fa.fn.locals[s["lhs"]["l"]]["ty"].startswith("&mut "):
                         elems.add(s["lhs"]["l"])
             if not elems:
                 continue
+            # the table is walked from end to end: no adaptor that can end the walk early or
+            # skip elements sits between the table and the loop (`zip` stops with the shorter
+            # partner)
+            chain_, cur_ = [], nt["args"][0]
+            for _ in range(10):
+                o_ = fa.origin(cur_)
+                if o_[0] != "call":
+                    break
+                chain_.append(sorted({strip_generics(x).rsplit("::", 1)[-1] for x in callee_paths(o_[2])})[0])
+                if not o_[2]["args"]:
+                    break
+                cur_ = o_[2]["args"][0]
+            partial = [c for c in chain_ if c in ("zip", "take", "skip", "step_by", "take_while", "skip_while",
+                                                  "filter", "filter_map", "map_while")]
             body = fa.reachable(some_t, avoid={nb})
             # reborrows / copies of the element reference
             changed = True
@@ -638,6 +673,12 @@ def maprewrite(ctx, E, crate):
             names = fa.fn.local_names()
             label = (f.j.get("impl_self_adt") or p.rsplit("::", 1)[0]).split("::")[-1] + "::map_connection_ids"
             en = sorted(names.get(e, "_%d" % e) for e in elems)[0]
+            ctx.ob("MAPREWRITE", "%s|loop|%d|whole-table" % (p, k - 1), not partial, fa.loc(nb),
+                   "%s: the rewritten table is walked from end to end (%s)" % (label, " <- ".join(chain_) or "direct")
+                   if not partial else
+                   "%s: the loop that rewrites `*%s` goes through %s: when the other sequence is "
+                   "shorter (different numbers of left and right ids) the tail of the table keeps its "
+                   "old numbers" % (label, en, ", ".join(partial)))
             ctx.ob("MAPREWRITE", "%s|loop|%d" % (p, k - 1), not skip, fa.loc(nb),
                    "%s: every path through the loop body rewrites the element `*%s`"
                    % (label, en)
